@@ -215,7 +215,7 @@ class Calls(Interp):
         if cls is bytes and not args:
             yield st, b''
             return
-        if cls in (int, bool, str, list, set, dict, tuple, bytes, type):
+        if cls in (int, bool, str, list, set, dict, tuple, bytes, type, range, enumerate, reversed):
             yield from self.call_external(cls, args, kwargs, st, e)
             return
         if cls is io.BytesIO:
@@ -233,7 +233,7 @@ class Calls(Interp):
         if init is object.__init__:
             if args or kwargs:
                 raise Outside("arguments to %s()" % ci.name)
-            yield st, V(ci.ctor(), CLS(ci.name)) if ci.fields == [] else None
+            yield st, V(self.mk(ci, []), CLS(ci.name))
             return
         loc = next(self.loc_counter)
         st.heap[loc] = HeapObj('obj', fields={}, cls=ci.pyclass)
@@ -248,7 +248,11 @@ class Calls(Interp):
                 if f not in h.fields:
                     raise Outside("constructor of %s did not set %s" % (ci.name, f))
                 ts.append(self.term(h.fields[f], fty, s))
-            yield s, V(ci.ctor(*ts), CLS(ci.name))
+            yield s, V(self.mk(ci, ts), CLS(ci.name))
+
+    @staticmethod
+    def mk(ci, ts):
+        return ci.ctor(*ts) if ts or not isinstance(ci.ctor, z3.ExprRef) else ci.ctor
 
     def construct_stateful(self, cls, args, kwargs, st):
         loc = next(self.loc_counter)
@@ -290,11 +294,8 @@ class Calls(Interp):
             inner = self.validity(V(o.val(v.t), ty.args[0]), st, depth + 1)
             return True if _is_true(inner) else z3.Implies(o.is_some(v.t), self.b(inner))
         if k == 'list':
-            j = self.fresh_term('vi', z3.IntSort())
-            inner = self.validity(V(v.t[j], ty.args[0]), st, depth + 1)
-            if _is_true(inner):
-                return True
-            return z3.ForAll([j], z3.Implies(z3.And(0 <= j, j < z3.Length(v.t)), self.b(inner)))
+            # element invariants are instantiated when an element is taken out (index / iteration), not quantified
+            return True
         if k == 'tuple':
             return self._and([self.validity(x, st, depth + 1) for x in self.untuple(v)])
         if k == 'cls':
